@@ -36,7 +36,16 @@ pub fn strategy(tier: Tier) -> BS<Case> {
     // index; index 0xffffffff with a non-zero txid) that must NOT count as coinbase
     cfg.tx.src = prop_oneof![12 => gen::default_src(), 2 => Just(Src::Null), 1 => prop_oneof![Just(0u32), Just(0xffff_fffeu32), any::<u32>()].prop_map(Src::ZeroTxid), 1 => any::<u8>().prop_map(|s| Src::Unknown(s, 0xffff_ffff))].boxed();
     cfg.tx.max_common = 4;
-    (gen::chain(&cfg), proptest::option::weighted(0.3, any::<u16>()), proptest::option::weighted(0.3, any::<u16>())).prop_map(|(chain, start_sel, end_sel)| Case { chain, start_sel, end_sel }).boxed()
+    (gen::chain(&cfg), proptest::option::weighted(0.3, any::<u16>()), proptest::option::weighted(0.3, any::<u16>()), proptest::option::weighted(0.12, (any::<u16>(), 0u64..1_000_000_000_000)))
+        .prop_map(|(mut chain, start_sel, end_sel, huge)| {
+            // at most one output of 2^63 or more per chain: sums of all other values stay far below 2^63
+            if let Some((sel, extra)) = huge {
+                let n = chain.blocks.len();
+                chain.blocks[vpmodel::spec::mono(sel, n)].coinbase.outputs[0].value = (1u64 << 63) + extra;
+            }
+            Case { chain, start_sel, end_sel }
+        })
+        .boxed()
 }
 
 pub fn check(c: &Case) -> Verdict {
